@@ -2,8 +2,11 @@ import StraxModel.Lemmas.SuperrunDeep
 import StraxModel.Generated.RunDoc
 /-
   Property C14 — a superrun is exactly the ordered concatenation of its subruns.
-  Only property theorems and non-vacuity examples; the work is in Lemmas/Superrun*.lean, the model in
-  Model/Superrun.lean (+ Model/Chunk.lean, Model/Rechunk.lean).
+  Only property theorems and non-vacuity examples; the work is in Lemmas/Superrun{,Rows,Level,Cont,Pipe,Deep}.lean, the
+  model in Model/Superrun.lean (+ Model/Chunk.lean, Model/Rechunk.lean), one translated constant in Generated/RunDoc.lean.
+  26 theorems: 16 full, 8 `_partial` (docstrings name the missing part), 2 witnesses (`_counterexample`).
+  Partial-correctness statements ("if `get_iter` returns …") are `_partial`; their total siblings are
+  `basic_pipeline_rows_total` and `superrun_rows_total_adjacent`.
 -/
 namespace Strax.C14
 open Strax Strax.Superrun
